@@ -41,6 +41,12 @@ def bi_len(eng, args, kwargs, fr):
         return SV(FO.fold(eng, eng.store_of(v), "size"), "int")
     if isinstance(v, SetVal):
         return SV(v.card, "int")
+    if isinstance(v, SeqIter) and v.kind == "setofkey":
+        # number of distinct members == length of the sorted duplicate-free key
+        return SV(z3.Length(eng.facts.sq(False, v.data.e)), "int")
+    if isinstance(v, SeqIter) and v.kind == "setfiltered":
+        mode, key = v.data
+        return SV(z3.Length(eng.facts.sq(mode == "odd", key.e)), "int")
     raise Unsupported("len of %s" % type(v).__name__)
 
 
@@ -96,6 +102,8 @@ def _isinst(eng, v, c):
         rs = [_isinst(eng, v, x) for x in c]
         return any(rs)
     n = class_name_of(eng, v)
+    if isinstance(c, Builtin) and c.name in eng.BUILTIN_CLASSES:
+        c = BuiltinClass(c.name)
     if isinstance(c, ClassRef):
         if n in eng.db.classes:
             return eng.db.is_subclass(eng.db.classes[n], c.cls.name)
@@ -229,6 +237,9 @@ def bi_set(eng, args, kwargs, fr):
         return SeqIter("setofkey", v)
     if isinstance(v, tuple):
         return SeqIter("setofkey", SV(eng.as_key(v), "key"))
+    if isinstance(v, SeqIter) and v.kind == "genexp":
+        mode, key = recognize_member_filter(eng, v)
+        return SeqIter("setfiltered", (mode, key))
     raise Unsupported("set(%s)" % type(v).__name__)
 
 
@@ -252,27 +263,26 @@ def _check_ordering_key(eng, keyf):
         raise Unsupported("sorted() with an unknown key function")
     # the body of ordering_key must still be  (str(type(x)), x)
     fd = keyf.fdef
-    ok = (len(fd.body) == 1 and isinstance(fd.body[0], ast.Return)
-          and ast.dump(fd.body[0].value) == ast.dump(ast.parse("(str(type(x)), x)", mode="eval").body))
+    body = [b for b in fd.body if not (isinstance(b, ast.Expr) and isinstance(b.value, ast.Constant))]
+    ok = (len(body) == 1 and isinstance(body[0], ast.Return)
+          and ast.dump(body[0].value) == ast.dump(ast.parse("(str(type(x)), x)", mode="eval").body))
     if not ok:
         raise Unsupported("ordering_key body changed")
 
 
-def sorted_genexp(eng, gen, keyf):
-    """sorted(x for x in set(key) if <pred>)  ->  canonical key when <pred> is recognised semantically"""
+def recognize_member_filter(eng, gen):
+    """(x for x in set(key) if <pred>)  ->  ('odd'|'all', key SV)  when <pred> is recognised semantically"""
     n, fr = gen.data
     if len(n.generators) != 1:
-        raise Unsupported("sorted(genexp) shape")
+        raise Unsupported("genexp shape")
     g = n.generators[0]
     src = eng.eval(g.iter, fr)
     if isinstance(src, SeqIter) and src.kind == "setofkey" and isinstance(n.elt, ast.Name) and \
        isinstance(g.target, ast.Name) and n.elt.id == g.target.id:
-        _check_ordering_key(eng, keyf)
         key = src.data
         x = eng.fresh("label", "m")
         from .interp import Frame
         sub = Frame(fr.closure, {g.target.id: x}, fr.self_obj, fr.defining_cls)
-        sub.closure_env_parent = fr
         conds = []
         eng.spec += 1
         try:
@@ -282,14 +292,19 @@ def sorted_genexp(eng, gen, keyf):
             eng.spec -= 1
         phi = z3.And(*conds) if conds else z3.BoolVal(True)
         odd = T.cnt(key.e, x.e) % 2 == 1
-        # members of set(key) have count >= 1
-        ctx = T.cnt(key.e, x.e) >= 1
+        ctx = T.cnt(key.e, x.e) >= 1      # members of set(key) occur at least once
         if not eng.feasible(z3.And(ctx, phi != odd)):
-            return SeqIter("sortedset", SV(eng.facts.sq(True, key.e), "key"))
+            return "odd", key
         if not eng.feasible(z3.And(ctx, z3.Not(phi))):
-            return SeqIter("sortedset", SV(eng.facts.sq(False, key.e), "key"))
+            return "all", key
         raise Unsupported("filter predicate over set(key) not recognised as parity or trivial")
-    raise Unsupported("sorted(genexp) shape")
+    raise Unsupported("genexp over set(key): shape")
+
+
+def sorted_genexp(eng, gen, keyf):
+    mode, key = recognize_member_filter(eng, gen)
+    _check_ordering_key(eng, keyf)
+    return SeqIter("sortedset", SV(eng.facts.sq(mode == "odd", key.e), "key"))
 
 
 def _eval_in(eng, node, sub, parent):
